@@ -668,6 +668,111 @@ pub fn check_shorthand(text: &str, is_type: bool, reject: bool, rep: &mut Report
     }
 }
 
+
+/// The complete small universe of field lists: every list of <= 3 fields, each written positionally, with a numeric
+/// id or with a name, as a record *type* and as a record *value*. The oracle assigns ids by the shorthand rule of
+/// the specification (a positional field gets the previous field's id + 1, whatever way that one was written; 0
+/// if it is the first); the list is well-formed iff the ids are distinct, and then the parser must produce exactly
+/// those ids (a name and its numeric id are interchangeable in every position).
+pub fn shorthand_universe(names: &[(String, u32)]) -> Vec<(String, bool, Vec<u64>)> {
+    #[derive(Clone)]
+    enum F {
+        Pos,
+        Id(u64),
+        Name(String, u64),
+    }
+    let mut alpha = vec![F::Pos, F::Id(0), F::Id(1), F::Id(2), F::Id(97), F::Id(98)];
+    for (n, id) in names {
+        alpha.push(F::Name(n.clone(), *id as u64));
+    }
+    let mut lists: Vec<Vec<F>> = vec![vec![]];
+    let mut layer: Vec<Vec<F>> = vec![vec![]];
+    for _ in 0..3 {
+        let mut next = vec![];
+        for l in &layer {
+            for a in &alpha {
+                let mut m = l.clone();
+                m.push(a.clone());
+                next.push(m);
+            }
+        }
+        lists.extend(next.iter().cloned());
+        layer = next;
+    }
+    let mut out = vec![];
+    for fs in lists {
+        let mut ids = vec![];
+        let mut prev: Option<u64> = None;
+        let mut tparts = vec![];
+        let mut vparts = vec![];
+        for f in &fs {
+            let id = match f {
+                F::Pos => prev.map(|p| p + 1).unwrap_or(0),
+                F::Id(n) => *n,
+                F::Name(_, n) => *n,
+            };
+            prev = Some(id);
+            ids.push(id);
+            match f {
+                F::Pos => {
+                    tparts.push("nat".to_string());
+                    vparts.push("1".to_string());
+                }
+                F::Id(n) => {
+                    tparts.push(format!("{n} : nat"));
+                    vparts.push(format!("{n} = 1"));
+                }
+                F::Name(s, _) => {
+                    tparts.push(format!("{s} : nat"));
+                    vparts.push(format!("{s} = 1"));
+                }
+            }
+        }
+        out.push((format!("(record {{ {} }})", tparts.join("; ")), true, ids.clone()));
+        out.push((format!("(record {{ {} }})", vparts.join("; ")), false, ids));
+    }
+    out
+}
+
+pub fn check_shorthand_ids(text: &str, is_type: bool, ids: &[u64], rep: &mut Report) {
+    rep.evaluations += 1;
+    rep.transitions += 1;
+    rep.traces_validated += 1;
+    let mut sorted = ids.to_vec();
+    sorted.sort();
+    let reject = sorted.windows(2).any(|w| w[0] == w[1]) || ids.iter().any(|i| *i > u32::MAX as u64);
+    let case = json!({"part": "shorthand-ids", "text": text, "is_type": is_type, "ids": ids});
+    let key = format!("shorthand-ids|{}|{}", if is_type { "type" } else { "value" }, text.replace(' ', ""));
+    let r = catch(|| -> Result<Vec<u64>, String> {
+        if is_type {
+            let tys: candid_parser::syntax::IDLTypes = text.parse().map_err(|e| format!("{e}"))?;
+            let t = candid_parser::typing::ast_to_type(&TypeEnv::new(), &tys.args[0].typ).map_err(|e| format!("{e}"))?;
+            Ok(type_fields(&t).unwrap_or_default().into_iter().map(|x| x as u64).collect())
+        } else {
+            let a = candid_parser::parse_idl_args(text).map_err(|e| format!("{e}"))?;
+            match a.args.first() {
+                Some(candid::IDLValue::Record(fs)) => Ok(fs.iter().map(|f| oracle_id(&f.id) as u64).collect()),
+                other => Err(format!("not a record: {other:?}")),
+            }
+        }
+    });
+    match (r, reject) {
+        (Err(p), _) => rep.violation(&format!("{key}|panic"), format!("parser panicked on `{text}`: {p}"), case),
+        (Ok(Ok(got)), true) => rep.violation(&format!("{key}|accepted"), format!("`{text}` denotes ids {ids:?} (not distinct) but was accepted with ids {got:?}"), case),
+        (Ok(Err(e)), false) => rep.violation(&format!("{key}|rejected"), format!("`{text}` denotes the distinct ids {ids:?} but was rejected: {}", first_line(&e)), case),
+        (Ok(Err(_)), true) => {
+            rep.nontrivial += 1;
+            rep.outcome("shorthand-ids:rejected-duplicate");
+        }
+        (Ok(Ok(got)), false) => {
+            if got != sorted {
+                rep.violation(&format!("{key}|ids"), format!("`{text}` denotes ids {sorted:?}, the parser produced {got:?}"), case);
+            }
+            rep.outcome("shorthand-ids:accepted");
+        }
+    }
+}
+
 // ---------------------------------------------------------------------------------------
 // part 5b: service! with run-time method names
 // ---------------------------------------------------------------------------------------
